@@ -107,6 +107,11 @@ FAMILIES = [fam_stop_by_later_yield(), fam_rebind(), fam_rebind_norecur(), fam_n
 # programs with a hand-derived answer: what the NEXT round sees is exactly what `new` / the most recent `recur` bound, in the
 # scope where the literal was written (not the scope where `new` is called, not the previous round's scope)
 EXPECT = [
+    # `new` on an iterator that has already been started gives another independent iterator and leaves the receiver's progress
+    # alone; `new` on the literal leaves the literal un-initialised
+    ("new_on_a_started_iterator", "gen := <{|i| yield i if i < 100; recur(i + 1)}>\na := gen.new(1)\nx1 := a.next\nx2 := a.next\nb := a.new(50)\n"
+     "[x1, x2, b.next, a.next, a.next, b.next].p\nc := gen.new(7)\n[gen.try.next.err?, c.next, gen.new(3).next, c.next].p\n"
+     "d := c.new(0)\n[d.next, c.next, d.next].p\n", "[1, 2, 50, 3, 4, 51]\n[true, 7, 3, 8]\n[0, 9, 1]\n"),
     ("argvar_not_rebound_by_recur", "gen := <{|i| yield [i, \\2] if i < 3; recur(i + 1)}>\nit := gen.new(0, 'extra)\nit.next.p\n1.try.{|_| it.next}.A.p\n",
      '[0, "extra"]\n[nil, [NameErr: name `\\2` is not defined]]\n'),
     ("kwarg_not_passed_by_recur", "gen2 := <{|i, step: 1| yield [i, \\step] if i < 9; recur(i + step)}>\nit2 := gen2.new(0, step: 3)\nit2.next.p\n1.try.{|_| it2.next}.A.p\n",
